@@ -237,13 +237,32 @@ class Type1Tag(Tag):
             # Write the new message data to the tag.
             tag_memory.synchronize()
 
-            # Write the ndef message tlv length.
+            # Write the ndef message tlv length. The three byte length
+            # field may span more than one write unit (8 byte block or
+            # single byte). The tag must then never hold a length that
+            # is neither zero nor the final value if the write gets
+            # interrupted between the units.
             offset = self._ndef_tlv_offset
             if len(data) < 255:
                 tag_memory[offset+1] = len(data)
             else:
+                nlen = bytearray(pack(">H", len(data)))
+                hr0 = tag_memory._header_rom[0]
+                size = 8 if (hr0 >> 4 == 1 and hr0 & 0x0F != 1) else 1
+                unit = [(offset + i) // size for i in (1, 2, 3)]
+                if unit[0] != unit[1] and unit[1] == unit[2]:
+                    # The second unit is written after the 0xFF marker
+                    # and must read as zero length until then.
+                    tag_memory[offset+2:offset+4] = b"\x00\x00"
+                else:
+                    # Length bytes in a later unit get their final value
+                    # while the first length byte is still zero.
+                    for i in (1, 2):
+                        if unit[i] != unit[0]:
+                            tag_memory[offset+1+i] = nlen[i-1]
+                tag_memory.synchronize()
                 tag_memory[offset+1] = 0xFF
-                tag_memory[offset+2:offset+4] = pack(">H", len(data))
+                tag_memory[offset+2:offset+4] = nlen
             tag_memory.synchronize()
 
     #
